@@ -1,7 +1,7 @@
 (* C02: property theorems.  See bin/propcfg/C02.py for the status text. *)
 From Coq Require Import List ZArith Bool Permutation.
 From DD Require Import Model.Circuit Model.Query Proofs.Semantics Proofs.CountsA Proofs.QueryDefs
-  Proofs.C02Proof.
+  Proofs.C02Proof Proofs.C02Contra.
 Import ListNotations.
 Open Scope Z_scope.
 
@@ -69,3 +69,32 @@ Example ex_c02_values :
       [[]; [1]; [-1]; [2]; [1;-2]; [2;-2]; [2;2]; ex_long; (-1) :: ex_long]
   = [2; 2; 0; 1; 1; 0; 1; 1; 0].
 Proof. vm_compute. reflexivity. Qed.
+
+(* A contradictory list - both x and -x, anywhere in the list, whatever its length - is contained
+   in no model, so every strategy (cached root, marker, full recomputation past 20 literals) and
+   the core shortcuts answer 0.  (Seeded change C02-r4A: the full recomputation kept one entry per
+   variable and answered count(A, last of {x, -x}).) *)
+Theorem C02_contradictory_is_zero : forall C n A s x,
+  WFQ C n -> in_range n A -> Clean C s -> In x A -> In (- x) A ->
+  snd (execute_query (build C n) A s) = 0.
+Proof. exact execute_query_contradictory. Qed.
+Print Assumptions C02_contradictory_is_zero.
+
+Theorem C02_MCA_contradictory : forall C n A x, In x A -> In (- x) A -> MCA C n A = 0.
+Proof. exact MCA_contradictory. Qed.
+Print Assumptions C02_MCA_contradictory.
+
+(* non-vacuity: 23 literals (full recomputation), x2 is neither core nor dead, the pair 2, -2 at
+   the end; without the pair the count is 1 *)
+Definition ex_contra : cfg := ex_long ++ [-2].
+Example ex_c02_contra :
+  in_range 2 ex_contra /\ In 2 ex_contra /\ In (- 2) ex_contra /\ (20 <? length ex_contra)%nat = true /\
+  snd (execute_query (build ex_c02 2) ex_contra ex_dirty) = 0 /\
+  snd (execute_query (build ex_c02 2) ex_long ex_dirty) = 1.
+Proof.
+  split.
+  - intros l Hl. unfold ex_contra, ex_long in Hl. cbn in Hl.
+    repeat (destruct Hl as [<-|Hl]; [cbn; split; discriminate|]). destruct Hl.
+  - split; [right; left; reflexivity|]. split; [apply in_or_app; right; left; reflexivity|].
+    split; [vm_compute; reflexivity|]. split; vm_compute; reflexivity.
+Qed.
